@@ -297,7 +297,7 @@ func H_C01_linkNodes() {
 type pNode struct {
 	pipe, pos int
 	typ       NodeType
-	outcome   int // 0 pass same event, 1 pass a new event, 2 drop, 3 error
+	outcome   int // 0 pass same event, 1 pass a new event, 2 drop, 3 error, 4 error together with an event
 	calls     int
 	got       *Event
 	ret       *Event
@@ -314,6 +314,10 @@ func (n *pNode) Process(ctx context.Context, e *Event) (*Event, error) {
 		n.ret = &Event{Type: e.Type, Payload: n}
 	case 2:
 		n.ret = nil
+	case 4:
+		// an error is an error, whatever comes with it
+		n.ret = &Event{Type: e.Type, Payload: n}
+		n.err = &vErr{"process"}
 	default:
 		n.ret = nil
 		n.err = &vErr{"process"}
@@ -324,8 +328,16 @@ func (n *pNode) Reopen() error  { return nil }
 func (n *pNode) Type() NodeType { return n.typ }
 
 type vCtx struct {
-	done chan struct{}
-	err  error
+	done  chan struct{}
+	err   error
+	cause error
+}
+
+func (c *vCtx) VerifCause() error {
+	if c.cause != nil {
+		return c.cause
+	}
+	return c.err
 }
 
 func (c *vCtx) Deadline() (time.Time, bool) { return time.Time{}, false }
@@ -364,7 +376,7 @@ func H_C01_process_seq() {
 		for i := 0; i < ln; i++ {
 			nd := &pNode{pipe: p, pos: i, typ: NodeType(nondetInt()), outcome: nondetInt()}
 			verifAssume(nd.outcome >= 0)
-			verifAssume(nd.outcome <= 3)
+			verifAssume(nd.outcome <= 4)
 			if i == ln-1 {
 				verifAssume(nd.typ == NodeTypeSink)
 			}
